@@ -79,7 +79,7 @@ def run(v):
     trace = os.path.join(wd, "trace.ndjson")
     rc, out, err = common.run_hv(["c15", "--cases", cases, "--chars", "abAB'’" if thorough else "abA'",
                                   "--stride", 1 if thorough else 6, "--out", trace, "--seed", v.seed,
-                                  "--curated-queries", 6000 if thorough else 800,
+                                  "--curated-queries", 6000 if thorough else 500,
                                   "--dist-pairs", 5000 if thorough else 500], timeout=7200)
     if rc != 0:
         raise common.ToolError("hv c15 failed: " + err[-2000:])
